@@ -83,7 +83,7 @@ func VerifC11Atomic() {
 	nd.Assert(vPut(c, vItem{"p": vS("k"), "n": vN("0")}) == nil, "setup-put")
 	nd.Track(c)
 	tbl := aws.String(vTbl)
-	switch nd.Choice("pair", 6) {
+	switch nd.Choice("pair", 12) {
 	case 0: // N concurrent ADD 1 yield N
 		add := func() {
 			c.UpdateItem(vCtx, &dynamodb.UpdateItemInput{TableName: tbl, Key: vItem{"p": vS("k")}, UpdateExpression: aws.String("ADD n :one"), ExpressionAttributeValues: vItem{":one": vN("1")}})
@@ -137,6 +137,63 @@ func VerifC11Atomic() {
 			ok = false
 		}
 		nd.Assert(ok, "C11-clear-vs-put-serializable")
+	case 6: // index creation racing with the write of an indexed item: the index mirrors the table afterwards
+		nd.Par(func() { AddIndex(vCtx, c, vTbl, vIdx, "g", "") }, func() { vPut(c, vItem{"p": vS("i"), "g": vS("gv")}) })
+		vInvariant(c, "C11-addindex-put")
+		out, err := c.Scan(vCtx, &dynamodb.ScanInput{TableName: tbl, IndexName: aws.String(vIdx)})
+		nd.Assert(err == nil && len(out.Items) == 1, "C11-index-created-during-put-mirrors-table")
+	case 7: // table deletion racing with a put: the put succeeded before or failed after; the table is gone
+		var e2 error
+		nd.Par(func() { c.DeleteTable(vCtx, &dynamodb.DeleteTableInput{TableName: tbl}) }, func() { e2 = vPut(c, vItem{"p": vS("z")}) })
+		nd.Assert(e2 == nil || vErrCode(e2) == "ResourceNotFoundException", "C11-put-vs-delete-table-outcome")
+		_, derr := c.DescribeTable(vCtx, &dynamodb.DescribeTableInput{TableName: tbl})
+		nd.Assert(vErrCode(derr) == "ResourceNotFoundException", "C11-table-gone-after-delete")
+	case 8: // failure activation racing with a put: refused without effect, or applied
+		var e2 error
+		nd.Par(func() { EmulateFailure(c, FailureConditionInternalServerError) }, func() { e2 = vPut(c, vItem{"p": vS("z")}) })
+		EmulateFailure(c, FailureConditionNone)
+		got, gerr := vGet(c, vItem{"p": vS("z")})
+		nd.Assert(gerr == nil && (e2 == nil) == (len(got) != 0), "C11-put-vs-failure-toggle-all-or-nothing")
+	case 9: // update of an indexed attribute racing with an index scan: the reader sees the item exactly once
+		nd.Assert(AddIndex(vCtx, c, vTbl, vIdx, "g", "") == nil, "setup-addindex")
+		nd.Assert(vPut(c, vItem{"p": vS("i"), "g": vS("a")}) == nil, "setup-put-indexed")
+		var seen []vItem
+		var serr error
+		nd.Par(func() {
+			c.UpdateItem(vCtx, &dynamodb.UpdateItemInput{TableName: tbl, Key: vItem{"p": vS("i")}, UpdateExpression: aws.String("SET g = :g"), ExpressionAttributeValues: vItem{":g": vS("b")}})
+		}, func() {
+			out, err := c.Scan(vCtx, &dynamodb.ScanInput{TableName: tbl, IndexName: aws.String(vIdx)})
+			serr = err
+			if err == nil {
+				seen = out.Items
+			}
+		})
+		nd.Assert(serr == nil && len(seen) == 1, "C11-index-reader-sees-item-once")
+		if len(seen) == 1 {
+			g, _ := vGetS(seen[0], "g")
+			nd.Assert(g == "a" || g == "b", "C11-index-reader-sees-old-or-new")
+		}
+	case 10: // clear racing with an upsert that adds: empty table, or a fresh counter
+		nd.Par(func() { ClearTable(c, vTbl) }, func() {
+			c.UpdateItem(vCtx, &dynamodb.UpdateItemInput{TableName: tbl, Key: vItem{"p": vS("k")}, UpdateExpression: aws.String("ADD n :one"), ExpressionAttributeValues: vItem{":one": vN("1")}})
+		})
+		vInvariant(c, "C11-clear-add")
+		got, _ := vGet(c, vItem{"p": vS("k")})
+		n, _ := got["n"].(*types.AttributeValueMemberN)
+		nd.Assert(len(got) == 0 || (n != nil && n.Value == "1"), "C11-clear-vs-add-serializable")
+	case 11: // two conditional updates taking a lock attribute: exactly one wins
+		var e1, e2 error
+		take := func(e *error, who string) func() {
+			return func() {
+				_, *e = c.UpdateItem(vCtx, &dynamodb.UpdateItemInput{TableName: tbl, Key: vItem{"p": vS("k")}, UpdateExpression: aws.String("SET holder = :w"),
+					ConditionExpression: aws.String("attribute_not_exists(holder)"), ExpressionAttributeValues: vItem{":w": vS(who)}})
+			}
+		}
+		nd.Par(take(&e1, "one"), take(&e2, "two"))
+		nd.Assert((e1 == nil) != (e2 == nil), "C11-exactly-one-conditional-update-wins")
+		got, _ := vGet(c, vItem{"p": vS("k")})
+		h, _ := vGetS(got, "holder")
+		nd.Assert((e1 == nil && h == "one") || (e2 == nil && h == "two"), "C11-winner-holds-the-lock")
 	}
 	nd.Reach("end")
 }
